@@ -630,9 +630,18 @@ def apps_in(*syms):
 # ----------------------------------------------------------------------------------------------------
 # substitution, differentiation
 # ----------------------------------------------------------------------------------------------------
+def _varname(x):
+    """variable name of x (a str or a variable Sym); anything else is a harness error, never silently 'no such variable'"""
+    if isinstance(x, str):
+        return x
+    if isinstance(x, Sym) and _nodes[x.n][0] in ("v", "bvar"):
+        return _nodes[x.n][1]
+    raise Unsupported(f"not a variable: {x!r}")
+
+
 def subst(s, mapping):
     """mapping: {var name: Sym | number}.  Rebuilds through the smart constructors."""
-    mp = {k: lift(v) for k, v in mapping.items()}
+    mp = {_varname(k): lift(v) for k, v in mapping.items()}
     memo = {}
 
     def go(n):
@@ -690,7 +699,8 @@ DERIV_RULES = {
 
 
 def diff(s, x):
-    """Formal derivative d s / d x (x: variable name)."""
+    """Formal derivative d s / d x (x: variable name or variable)."""
+    x = _varname(x)
     memo = {}
 
     def go(n):
